@@ -1,0 +1,168 @@
+//go:build verif
+
+package jd
+
+import (
+	"bytes"
+	"fmt"
+	"os"
+	"os/exec"
+	"path/filepath"
+	"strings"
+)
+
+// Process-level stand-in for the CLI contract (C14) of the top-level binary run with -v2=false:
+// the binary, built from the working tree by the verifier (VERIF_JDTOP_BIN), is compared with the
+// v1 library called in-process.
+
+type verifRun struct {
+	stdout, stderr string
+	exit           int
+}
+
+func verifExec(bin string, stdin string, args ...string) verifRun {
+	cmd := exec.Command(bin, args...)
+	var out, errb bytes.Buffer
+	cmd.Stdout, cmd.Stderr = &out, &errb
+	if stdin != "" {
+		cmd.Stdin = strings.NewReader(stdin)
+	}
+	err := cmd.Run()
+	code := 0
+	if ee, ok := err.(*exec.ExitError); ok {
+		code = ee.ExitCode()
+	} else if err != nil {
+		code = -1
+	}
+	return verifRun{out.String(), errb.String(), code}
+}
+
+type verifFlags struct {
+	args   []string
+	meta   []Metadata
+	format string
+	yaml   bool
+}
+
+func verifFlagSets() []verifFlags {
+	return []verifFlags{
+		{nil, []Metadata{SetPrecision(0)}, "jd", false},
+		{[]string{"-set"}, []Metadata{SET, SetPrecision(0)}, "jd", false},
+		{[]string{"-mset"}, []Metadata{MULTISET, SetPrecision(0)}, "jd", false},
+		{[]string{"-setkeys", "a"}, []Metadata{Setkeys("a"), SetPrecision(0)}, "jd", false},
+		{[]string{"-precision", "0.5"}, []Metadata{SetPrecision(0.5)}, "jd", false},
+		{[]string{"-f", "patch"}, []Metadata{SetPrecision(0)}, "patch", false},
+		{[]string{"-f", "merge"}, []Metadata{MERGE, SetPrecision(0)}, "merge", false},
+		{[]string{"-yaml"}, []Metadata{SetPrecision(0)}, "jd", true},
+	}
+}
+
+// verifV1CLICheck returns "" when every CLI expectation holds for (a, b, flag set fi) on the
+// top-level binary with -v2=false, else a description.
+func verifV1CLICheck(a, b JsonNode, fi int) string {
+	bin := os.Getenv("VERIF_JDTOP_BIN")
+	if bin == "" {
+		return "binary not built"
+	}
+	fs := verifFlagSets()[fi%len(verifFlagSets())]
+	dir, err := os.MkdirTemp("", "verifcli")
+	if err != nil {
+		return err.Error()
+	}
+	defer os.RemoveAll(dir)
+	text := func(n JsonNode) string {
+		if fs.yaml {
+			return n.Yaml()
+		}
+		return n.Json()
+	}
+	fa, fb := filepath.Join(dir, "a"), filepath.Join(dir, "b")
+	os.WriteFile(fa, []byte(text(a)), 0o644)
+	os.WriteFile(fb, []byte(text(b)), 0o644)
+	if fs.yaml {
+		ra, ea := ReadYamlString(text(a))
+		rb, eb := ReadYamlString(text(b))
+		if ea != nil || eb != nil {
+			return ""
+		}
+		a, b = ra, rb
+	}
+	d := a.Diff(b, fs.meta...)
+	var want string
+	wantErr := false
+	switch fs.format {
+	case "jd":
+		want = d.Render()
+	case "patch":
+		s, err := d.RenderPatch()
+		want, wantErr = s, err != nil
+		d = a.Diff(b, fs.meta...) // (v1 RenderMerge / RenderPatch may touch the diff they render)
+	case "merge":
+		s, err := d.RenderMerge()
+		want, wantErr = s, err != nil
+		d = a.Diff(b, fs.meta...)
+	}
+	// exit status 0 exactly when the diff is empty, i.e. (C17) when the inputs are equal
+	wantExit := 1
+	if len(d) == 0 {
+		wantExit = 0
+	}
+	if wantErr {
+		wantExit, want = 2, ""
+	}
+	base := append([]string{"-v2=false"}, fs.args...)
+	r := verifExec(bin, "", append(append([]string{}, base...), fa, fb)...)
+	if r.exit != wantExit || r.stdout != want {
+		return fmt.Sprintf("%v: exit %d stdout %q, library: exit %d %q", base, r.exit, r.stdout, wantExit, want)
+	}
+	if r.exit == 2 && (strings.Count(r.stderr, "\n") != 1 || strings.Contains(r.stderr, "goroutine")) {
+		return fmt.Sprintf("exit 2 without a one-line message: %q", r.stderr)
+	}
+	if r.exit != 2 && r.stderr != "" {
+		return fmt.Sprintf("unexpected stderr %q", r.stderr)
+	}
+	rs := verifExec(bin, text(b), append(append([]string{}, base...), fa)...)
+	if text(b) != "" && (rs.exit != r.exit || rs.stdout != r.stdout) {
+		return fmt.Sprintf("%v: stdin run differs: exit %d %q vs %d %q", base, rs.exit, rs.stdout, r.exit, r.stdout)
+	}
+	fo := filepath.Join(dir, "o")
+	ro := verifExec(bin, "", append(append([]string{"-o", fo}, base...), fa, fb)...)
+	got, _ := os.ReadFile(fo)
+	if ro.exit != r.exit || ro.stdout != "" || (r.exit != 2 && string(got) != r.stdout) {
+		return fmt.Sprintf("%v: -o run: exit %d stdout %q file %q, plain run: exit %d %q", base, ro.exit, ro.stdout, got, r.exit, r.stdout)
+	}
+	if r.exit != 2 {
+		rbad := verifExec(bin, "", append(append([]string{"-o", filepath.Join(dir, "no", "such", "dir", "o")}, base...), fa, fb)...)
+		if rbad.exit != 2 {
+			return fmt.Sprintf("%v: unwritable -o path gives exit %d", base, rbad.exit)
+		}
+	}
+	// git diff driver: prints the same rendering for the same options, exit 0 (jd format only)
+	if fs.format == "jd" {
+		rg := verifExec(bin, "", append(append([]string{"-git-diff-driver"}, base...), "name", fa, "hex", "100644", fb, "hex", "100644")...)
+		if rg.exit != 0 || rg.stdout != want {
+			return fmt.Sprintf("%v: -git-diff-driver: exit %d stdout %q, library %q", base, rg.exit, rg.stdout, want)
+		}
+	}
+	// round trip through -p
+	if r.exit == 1 && verifV1Domain(a, b, fs.meta) && !isVoidV1(a) && !isVoidV1(b) &&
+		(fs.format != "patch" || (verifPointerExpressibleV1(a) && verifPointerExpressibleV1(b))) {
+		fd := filepath.Join(dir, "d")
+		os.WriteFile(fd, []byte(r.stdout), 0o644)
+		rp := verifExec(bin, "", append(append([]string{"-p"}, base...), fd, fa)...)
+		if rp.exit != 0 {
+			return fmt.Sprintf("%v: jd -p fails on jd's own output: exit %d %q", base, rp.exit, rp.stderr)
+		}
+		var back JsonNode
+		var err error
+		if fs.yaml {
+			back, err = ReadYamlString(rp.stdout)
+		} else {
+			back, err = ReadJsonString(rp.stdout)
+		}
+		if err != nil || !back.Equals(b, verifEqualMeta(fs.meta)...) {
+			return fmt.Sprintf("%v: -p round trip gives %q, want %s", base, rp.stdout, b.Json())
+		}
+	}
+	return ""
+}
